@@ -632,3 +632,44 @@ def sampleBadZone : Zone :=
   absBlock { sampleV2.v2 with trans := [(1000000000, 1), (1700000000, 1)] } (some sampleRule2)
 
 end Chrono.Proofs.TzValid
+
+/-! ### added for F32: the leap-second records of an accepted zone fit their fields -/
+namespace Chrono.Proofs.TzValid
+open Chrono Chrono.M.Tz Chrono.Spec.Tz Chrono.Proofs.Tz
+
+theorem post_parse_leaps (bytes : List Nat) : Post (parse bytes) (fun z => ∀ x ∈ z.leaps, LeapOkZ x) := by
+  unfold parse
+  refine post_bind (post_parseBlocks bytes) ?_
+  rintro ⟨st, footer⟩ - hs
+  dsimp only at hs ⊢
+  unfold parseRest
+  have hts : st.time_size = 4 ∨ st.time_size = 8 := by
+    rcases hs with h | h
+    · exact Or.inl (by simpa using h.2.1)
+    · exact Or.inr (by simpa using h.2.1)
+  have hh : HeaderV st.header ∧ st.names.length = st.header.char_count := by
+    rcases hs with h | h <;> exact ⟨h.1, h.2.2.2.2.2.1⟩
+  obtain ⟨hhv, hnames⟩ := hh
+  refine post_bind (post_parseTransitions _ _ (by omega) _ ?_) ?_
+  · rintro ⟨a, ty⟩ hp
+    exact chunks_exact_len _ _ a (List.of_mem_zip hp).1
+  · intro tr _ htr
+    refine post_bind (post_parseTypes _ _ hnames hhv.2.2.2.2.2.1 _ (chunks_exact_len 6 _)) ?_
+    intro ty _ ⟨_, hty⟩
+    refine post_bind (post_parseLeaps _ _ hts _ (chunks_exact_len _ _)) ?_
+    intro lp _ hlp
+    split
+    · exact post_err
+    · refine post_bind (Q := fun r => ∀ x, r = some x → RuleV x) ?_ ?_
+      · cases footer with
+        | none => exact post_ok (by simp)
+        | some f => exact post_parseFooter _ _
+      · intro r _ hr
+        unfold Zone.new
+        have hp := post_validate ⟨tr, ty, lp, r⟩ htr hr
+        cases hval : validate ⟨tr, ty, lp, r⟩ with
+        | ok u => exact post_ok hlp
+        | err => exact post_err
+        | panic => rw [hval] at hp; exact hp.elim
+
+end Chrono.Proofs.TzValid
